@@ -243,8 +243,19 @@ func c18Oracle(info *runInfo, res *verifsim.Result) {
 			}
 		}
 	}
+	// packets queued behind a slow receive on a connection that is then replaced are
+	// lost with it: deliveries to such a generation are not counted
+	slowGen := map[int]bool{}
+	for i := range h.ev {
+		if e := &h.ev[i]; e.K == "read.post" && e.If == ifn {
+			slowGen[e.Gen] = true
+		}
+	}
 	for i := range h.ev {
 		e := &h.ev[i]
+		if g := h.byKey[genKey(e.Node, e.If, e.Gen)]; g != nil && slowGen[e.Gen] && (g.endSeq != 0 && (stopSeq == 0 || g.endSeq < stopSeq)) {
+			continue
+		}
 		if (e.K == "act.ra" || e.K == "act.rs" || e.K == "act.ns" || e.K == "act.na") && e.If == ifn && e.Err == "" && (stopSeq == 0 || e.Seq < stopSeq) && h.deliveredAlive(e) {
 			delivered++
 		}
